@@ -776,3 +776,42 @@ V("c13-environment-overrides-option", ["C13"], "M", IOO, "    mapper = fsspec.ge
   more=[(IOO, "import fsspec\n", "import os\n\nimport fsspec\n")])
 V("c13-eq-environment-default", ["C13", "C10", "C18"], "E", IOO, "    mapper = fsspec.get_mapper(path, **storage_options)", "    debug = os.environ.get(\"CEOS_ALOS2_DEBUG\", \"\") == \"1\"\n    mapper = fsspec.get_mapper(path, **storage_options)",
   more=[(IOO, "import fsspec\n", "import os\n\nimport fsspec\n")])
+
+# ---------------------------------------------------------------- round 13 (linter / type-checker cleanups)
+_CS_OLD = '''    n_chunks = math.ceil(n_records / records_per_chunk)
+    chunksizes = [
+        (
+            records_per_chunk
+            if records_per_chunk * (index + 1) <= n_records
+            else n_records - records_per_chunk * index
+        )
+        for index in range(n_chunks)
+    ]
+'''
+V("c11-eq-repetition-chunksizes", ["C11", "C06", "C01", "C18"], "E", SIO, _CS_OLD, '''    n_full, n_remaining = divmod(n_records, records_per_chunk)
+    chunksizes = [records_per_chunk] * n_full + ([n_remaining] if n_remaining else [])
+''')
+V("c11-repetition-remainder-always", ["C11"], "M", SIO, _CS_OLD, '''    n_full, n_remaining = divmod(n_records, records_per_chunk)
+    chunksizes = [records_per_chunk] * n_full + [n_remaining]
+''', "C11-I8", more=[(SIO, "    record_type = record_preamble.parse(content[:12]).record_type\n", "    if not content:\n        return []\n\n    record_type = record_preamble.parse(content[:12]).record_type\n")])
+_FB_OLD = '''    bases = {
+        1: Int8ub,
+        2: Int16ub,
+        4: Int32ub,
+        8: Int64ub,
+    }
+'''
+V("c03-eq-annotated-class-table", ["C03", "C01", "C05", "C12", "C20"], "E", "ceos_alos2/sar_image/enums.py", _FB_OLD, '''    bases: ClassVar[dict] = {
+        1: Int8ub,
+        2: Int16ub,
+        4: Int32ub,
+        8: Int64ub,
+    }
+''', more=[("ceos_alos2/sar_image/enums.py", "class Flag(Adapter):", "from typing import ClassVar\n\n\nclass Flag(Adapter):")])
+V("c03-annotated-class-table-width", ["C01", "C03", "C12", "C20"], "M", "ceos_alos2/sar_image/enums.py", _FB_OLD, '''    bases: ClassVar[dict] = {
+        1: Int8ub,
+        2: Int16ub,
+        4: Int16ub,
+        8: Int64ub,
+    }
+''', more=[("ceos_alos2/sar_image/enums.py", "class Flag(Adapter):", "from typing import ClassVar\n\n\nclass Flag(Adapter):")])
